@@ -1,1 +1,266 @@
+//! The scripted terminal (DESIGN §6): an in-memory AsyncRead + AsyncWrite with
+//! a script of terminal->client byte strings, a gate per entry ("readable only
+//! after the client has written N bytes"), configurable chunking, and an
+//! append-only event log.  Driven by a hand-written poll loop: no runtime, no
+//! sockets, no wall clock; deadlock = a poll that can make no progress.
 
+use std::future::Future;
+use std::pin::Pin;
+use std::sync::atomic::{AtomicBool, Ordering};
+use std::sync::{Arc, Mutex};
+use std::task::{Context, Poll, Wake, Waker};
+use tokio::io::{AsyncRead, AsyncWrite, ReadBuf};
+
+#[derive(Clone, Debug, PartialEq)]
+pub enum Ev {
+    /// client wrote these bytes (one poll_write)
+    W(Vec<u8>),
+    /// client asked to read, offering this much space
+    Rq(usize),
+    /// bytes delivered to the client
+    R(Vec<u8>),
+    /// read attempt parked (nothing readable)
+    Pend,
+    Eof,
+    /// the stream under test produced an item
+    Yield { ok: bool, debug: String },
+    /// the stream under test finished
+    End,
+    /// the driver found the task parked with nothing that could wake it
+    Stuck,
+}
+
+#[derive(Clone, Debug)]
+pub struct Entry {
+    pub bytes: Vec<u8>,
+    /// readable once the client has written at least this many bytes in total
+    pub gate: usize,
+}
+
+#[derive(Clone, Debug, PartialEq)]
+pub enum Chunking {
+    /// as much as the reader asks for
+    Whole,
+    /// at most one byte per read
+    Bytewise,
+    /// stream offsets at which a read result must end (partition of the byte stream)
+    Cuts(Vec<usize>),
+}
+
+#[derive(Clone, Debug)]
+pub struct Script {
+    pub entries: Vec<Entry>,
+    /// after the last entry: end of stream (true) or silence (false)
+    pub eof: bool,
+    pub chunking: Chunking,
+    /// return Pending (with an immediate wake) before every delivery after the first
+    pub pend_between: bool,
+    /// accept at most this many bytes per poll_write
+    pub write_chunk: Option<usize>,
+}
+
+impl Script {
+    pub fn new(entries: Vec<Entry>) -> Self {
+        Script { entries, eof: false, chunking: Chunking::Whole, pend_between: false, write_chunk: None }
+    }
+}
+
+pub struct State {
+    pub script: Script,
+    pub log: Vec<Ev>,
+    pub written: usize,
+    /// bytes delivered so far (stream offset)
+    pub delivered: usize,
+    pend_flip: bool,
+    /// record R/W payloads (off for the very large C04 runs)
+    pub record_payloads: bool,
+}
+
+#[derive(Clone)]
+pub struct Term(pub Arc<Mutex<State>>);
+
+impl Term {
+    pub fn new(script: Script) -> Term {
+        Term(Arc::new(Mutex::new(State { script, log: vec![], written: 0, delivered: 0, pend_flip: false, record_payloads: true })))
+    }
+    pub fn log(&self) -> Vec<Ev> {
+        self.0.lock().unwrap().log.clone()
+    }
+    pub fn push(&self, ev: Ev) {
+        self.0.lock().unwrap().log.push(ev);
+    }
+    pub fn delivered(&self) -> usize {
+        self.0.lock().unwrap().delivered
+    }
+    pub fn written_bytes(&self) -> Vec<u8> {
+        self.0.lock().unwrap().log.iter().filter_map(|e| if let Ev::W(b) = e { Some(b.clone()) } else { None }).flatten().collect()
+    }
+}
+
+impl State {
+    /// bytes readable now, starting at the stream offset `delivered`
+    fn available(&self) -> Vec<u8> {
+        let mut out = vec![];
+        let mut off = 0usize;
+        for e in &self.script.entries {
+            if e.gate > self.written {
+                break;
+            }
+            let end = off + e.bytes.len();
+            if end > self.delivered {
+                let from = self.delivered.saturating_sub(off);
+                out.extend_from_slice(&e.bytes[from..]);
+            }
+            off = end;
+        }
+        out
+    }
+    fn total(&self) -> usize {
+        self.script.entries.iter().map(|e| e.bytes.len()).sum()
+    }
+}
+
+impl AsyncRead for Term {
+    fn poll_read(self: Pin<&mut Self>, cx: &mut Context<'_>, buf: &mut ReadBuf<'_>) -> Poll<std::io::Result<()>> {
+        let mut st = self.0.lock().unwrap();
+        let want = buf.remaining();
+        st.log.push(Ev::Rq(want));
+        if want == 0 {
+            return Poll::Ready(Ok(()));
+        }
+        let avail = st.available();
+        if avail.is_empty() {
+            if st.delivered >= st.total() && st.script.eof {
+                st.log.push(Ev::Eof);
+                return Poll::Ready(Ok(()));
+            }
+            // gated or silent: nothing in this task can change that
+            st.log.push(Ev::Pend);
+            return Poll::Pending;
+        }
+        if st.script.pend_between && st.delivered > 0 && !st.pend_flip {
+            st.pend_flip = true;
+            cx.waker().wake_by_ref();
+            return Poll::Pending;
+        }
+        st.pend_flip = false;
+        let mut n = want.min(avail.len());
+        match &st.script.chunking {
+            Chunking::Whole => {}
+            Chunking::Bytewise => n = 1,
+            Chunking::Cuts(cuts) => {
+                if let Some(c) = cuts.iter().find(|c| **c > st.delivered) {
+                    n = n.min(c - st.delivered);
+                }
+            }
+        }
+        buf.put_slice(&avail[..n]);
+        st.delivered += n;
+        let ev = if st.record_payloads { Ev::R(avail[..n].to_vec()) } else { Ev::R(vec![]) };
+        st.log.push(ev);
+        Poll::Ready(Ok(()))
+    }
+}
+
+impl AsyncWrite for Term {
+    fn poll_write(self: Pin<&mut Self>, _cx: &mut Context<'_>, buf: &[u8]) -> Poll<std::io::Result<usize>> {
+        let mut st = self.0.lock().unwrap();
+        let n = st.script.write_chunk.map(|c| c.min(buf.len())).unwrap_or(buf.len());
+        st.written += n;
+        let ev = Ev::W(buf[..n].to_vec());
+        st.log.push(ev);
+        Poll::Ready(Ok(n))
+    }
+    fn poll_flush(self: Pin<&mut Self>, _cx: &mut Context<'_>) -> Poll<std::io::Result<()>> {
+        Poll::Ready(Ok(()))
+    }
+    fn poll_shutdown(self: Pin<&mut Self>, _cx: &mut Context<'_>) -> Poll<std::io::Result<()>> {
+        Poll::Ready(Ok(()))
+    }
+}
+
+// ---------------------------------------------------------------- poll loop
+
+struct Flag(AtomicBool);
+impl Wake for Flag {
+    fn wake(self: Arc<Self>) {
+        self.0.store(true, Ordering::SeqCst);
+    }
+    fn wake_by_ref(self: &Arc<Self>) {
+        self.0.store(true, Ordering::SeqCst);
+    }
+}
+
+pub enum Polled<T> {
+    Ready(T),
+    /// parked with no wake-up pending: can never continue
+    Stuck,
+    /// harness guard: too many polls
+    Runaway,
+}
+
+/// Poll a future to completion without a runtime.
+pub fn block_on<F: Future>(mut fut: Pin<&mut F>) -> Polled<F::Output> {
+    let flag = Arc::new(Flag(AtomicBool::new(false)));
+    let waker = Waker::from(flag.clone());
+    let mut cx = Context::from_waker(&waker);
+    for _ in 0..50_000_000u64 {
+        flag.0.store(false, Ordering::SeqCst);
+        match fut.as_mut().poll(&mut cx) {
+            Poll::Ready(v) => return Polled::Ready(v),
+            Poll::Pending => {
+                if !flag.0.load(Ordering::SeqCst) {
+                    return Polled::Stuck;
+                }
+            }
+        }
+    }
+    Polled::Runaway
+}
+
+/// Drive a stream of results to its end, noting Yield / End / Stuck in the terminal's log.
+/// Returns false if the harness guard fired.
+pub fn drive_stream<T: std::fmt::Debug, S: futures::Stream<Item = anyhow::Result<T>> + ?Sized>(mut stream: Pin<&mut S>, term: &Term, max_items: usize) -> bool {
+    use futures::StreamExt;
+    for _ in 0..max_items {
+        let mut next = stream.next();
+        match block_on(Pin::new(&mut next)) {
+            Polled::Ready(Some(item)) => {
+                let ev = match &item {
+                    Ok(v) => Ev::Yield { ok: true, debug: format!("{v:?}") },
+                    Err(e) => Ev::Yield { ok: false, debug: format!("{e:#}") },
+                };
+                term.push(ev);
+            }
+            Polled::Ready(None) => {
+                term.push(Ev::End);
+                return true;
+            }
+            Polled::Stuck => {
+                term.push(Ev::Stuck);
+                return true;
+            }
+            Polled::Runaway => return false,
+        }
+    }
+    false
+}
+
+pub fn log_to_json(log: &[Ev]) -> serde_json::Value {
+    use serde_json::json;
+    let short = |b: &Vec<u8>| if b.len() <= 48 { refcodec::hex(b) } else { format!("{}…({} bytes)", refcodec::hex(&b[..24]), b.len()) };
+    serde_json::Value::Array(
+        log.iter()
+            .map(|e| match e {
+                Ev::W(b) => json!({"W": short(b)}),
+                Ev::Rq(n) => json!({"Rq": n}),
+                Ev::R(b) => json!({"R": short(b)}),
+                Ev::Pend => json!("Pend"),
+                Ev::Eof => json!("Eof"),
+                Ev::Yield { ok, debug } => json!({"Yield": if *ok { "ok" } else { "err" }, "debug": debug.chars().take(160).collect::<String>()}),
+                Ev::End => json!("End"),
+                Ev::Stuck => json!("Stuck"),
+            })
+            .collect(),
+    )
+}
